@@ -203,6 +203,8 @@ def run(project, chk):
                 continue
             if fi.qualname in project.transparent:
                 continue        # a private helper introduced after the pinned tree, inlined into (and judged with) each of its callers
+            if fi.qualname in project.outside_surface:
+                continue        # an API function added after the pinned tree that nothing of the pinned package calls: not among the entry points the property names
             sc = Scope(project, fi)
             cfg = None
             G = None
